@@ -498,5 +498,8 @@ pub fn run(ctx: &Ctx) -> Report {
         rep.exhaustive = false;
         rep.notes.push("8- and 16-bit source types are enumerated exhaustively against all 12 columns (48 pairs)".into());
     }
+    // ---- backends that go on after a refused writer call (props/recover.rs): the integers that were
+    //      accepted arrive exactly (binary rows of LONG and VAR_STRING columns)
+    rep.merge(super::recover::group(ctx, "C15", super::recover::Clause::Values, Some(true), 1000, 20_000));
     rep
 }
